@@ -157,6 +157,21 @@ impl<'a> ProgGen<'a> {
 
     /// A generator with at most a handful of outputs.
     fn bounded_gen(&mut self) -> String {
+        // a few outputs and then a raise: the shape that makes `Partial` results
+        if self.rng.chance(1, 5) {
+            let a = self.atom();
+            return match self.rng.below(6) {
+                0 => format!("({a}, error(\"x\"))"),
+                1 => format!("({a}, {}, error)", self.atom()),
+                2 => format!("(1, 2, error({}))", self.atom()),
+                3 => match self.labels.last().cloned() {
+                    Some(l) => format!("({a}, break {l})"),
+                    None => format!("({a}, error(null))"),
+                },
+                4 => format!("({a}, halt_error)"),
+                _ => "(error(\"only\"))".into(),
+            };
+        }
         match self.rng.below(6) {
             0 => format!("range({})", self.small()),
             1 => format!("range({};{})", self.small(), self.small()),
@@ -403,8 +418,60 @@ impl<'a> ProgGen<'a> {
                     _ => format!("def {f}($x): $x | {body}; {f}({rest})"),
                 }
             }
-            31 => format!("-({})", self.expr(d)),
-            32 => format!("[{}] | {}", self.bounded_gen(), self.expr(d)),
+            31 => {
+                if self.rng.chance(1, 2) {
+                    return format!("-({})", self.expr(d));
+                }
+                // broken-down time arrays with odd fields, and the date/time family
+                let f = |g: &mut Self| -> String {
+                    if g.rng.chance(1, 3) {
+                        g.num()
+                    } else {
+                        (*g.rng.pick(&["2024", "0", "1", "11", "12", "15", "31", "23", "59", "60", "-1", "-2", "6", "7", "365", "1.5"])).to_string()
+                    }
+                };
+                let arr = format!("[{},{},{},{},{},{},{},{}]", f(self), f(self), f(self), f(self), f(self), f(self), f(self), f(self));
+                let fmt = *self.rng.pick(&[
+                    "\"%a %b\"", "\"%A, %B %d, %Y\"", "\"%c\"", "\"%j %U %w\"", "\"%Z %z\"", "\"%e %H:%M:%S\"", "\"%s\"", "\"%%\"", "\"%Y-%m-%dT%H:%M:%SZ\"",
+                    "\"%h %p %I\"", "\"%G %V %u\"", "\"%\"", "\"%é\"", "\"%y %C %D %F %T\"",
+                ]);
+                match self.rng.below(8) {
+                    0 | 1 => format!("{arr} | strftime({fmt})"),
+                    2 => format!("{arr} | mktime"),
+                    3 => format!("{arr} | todate"),
+                    4 => format!("gmtime | .[{}] = {} | strftime({fmt})", self.rng.below(8), f(self)),
+                    5 => format!("{} | strptime({fmt})", self.string()),
+                    6 => format!("{arr} | strftime({fmt}) | strptime({fmt}) | mktime"),
+                    _ => format!("{} | gmtime | mktime", self.num()),
+                }
+            }
+            32 => {
+                if self.rng.chance(1, 2) {
+                    return format!("[{}] | {}", self.bounded_gen(), self.expr(d));
+                }
+                let n = self.num();
+                let g = self.bounded_gen();
+                let inner = match self.rng.below(6) {
+                    0 => format!("skip({n}; {g})"),
+                    1 => format!("limit({n}; {g})"),
+                    2 => format!("first({g})"),
+                    3 => format!("nth({n}; {g})"),
+                    4 => g,
+                    _ => format!("until(true; {g})"),
+                };
+                let outer = *self.rng.pick(&[
+                    "flatten", "has", "in", "contains", "inside", "startswith", "endswith", "ltrimstr", "rtrimstr", "join", "index", "indices",
+                    "test", "split", "getpath", "delpaths", "pick", "omit", "tojson |", "nth", "limit(1;", "strftime", "splits", "error",
+                    "setpath([0];", "pow(2;", "implode |", "ascii_downcase |", "with_entries", "map", "select", "sort_by", "group_by", "IN", "isvalid",
+                ]);
+                if outer.ends_with('|') {
+                    format!("({outer} {inner})")
+                } else if outer.ends_with(';') {
+                    format!("{outer} {inner})")
+                } else {
+                    format!("{outer}({inner})")
+                }
+            }
             33 => format!("({}) as $x | [$x, $x] | {}", self.expr(d), self.expr(d)),
             34 => format!("[.[]? | {}]", self.expr(d)),
             35 => format!("{} | tojson | fromjson", self.expr(d)),
